@@ -104,6 +104,16 @@ Theorem C10_connect_live_driver : forall m T e N lo fuel,
 Proof. exact connect_live_driver. Qed.
 Print Assumptions C10_connect_live_driver.
 
+(* a driver that is alive when the client arrives is found at the first attempt: two clock calls *)
+Theorem C10_connect_alive_at_once : forall m T e lo fuel,
+  arith_ok e T -> env_wf e lo ->
+  (forall j, usable (e_snap e 1%nat j) /\ s_hb (e_snap e 1%nat j) <> 0) ->
+  (wrapu64 (s_hb (e_snap e 2%nat 0%nat)) <? e_clock e 1%nat - T) = false ->
+  (6 <= fuel)%nat ->
+  exists n v h1 t h2, connect fuel m T e = (ROk n v h1 t h2, 2%nat).
+Proof. exact connect_alive_at_once. Qed.
+Print Assumptions C10_connect_alive_at_once.
+
 (* the decidable statement used on the implementation's observations is true on the model's, for every script *)
 Theorem C10_connect_oracle_model : forall m T c0 sc, holds_conn T c0 sc (connect_script m T c0 sc) = true.
 Proof. exact holds_conn_model. Qed.
